@@ -171,6 +171,17 @@ static int do_replay(const Str &path, bool quiet) {
     Str prop, enc;
     if (!json_field(doc, "property", prop) || !json_field(doc, "case", enc)) { fprintf(stderr, "bad replay file\n"); return 2; }
     const Check *c = find_check(prop); if (!c) { fprintf(stderr, "unknown property %s\n", prop.c_str()); return 2; }
+    if (unesc(enc).compare(0, 13, "WORKER-CRASH`") == 0) {
+        std::vector<Str> p = split(unesc(enc), '`'); if (p.size() != 5) return 2;
+        fflush(stdout); pid_t pid = fork();
+        if (pid == 0) { Ctx ctx; ctx.prop = prop; ctx.tier = p[3]; ctx.worker = atoi(p[1].c_str()); ctx.nworkers = atoi(p[2].c_str()); ctx.secondary = p[4] == "1"; ctx.t_start = now_s(); ctx.t_deadline = now_s() + 600;
+            g_progress_ptr = &ctx.progress; guard_install(); c->run(ctx); _exit(ctx.n_viol_total ? 1 : 0); }
+        int stt = 0; waitpid(pid, &stt, 0);
+        if (WIFSIGNALED(stt)) { if (!quiet) printf("replayed: property=%s worker share %s/%s is killed by %s\n", prop.c_str(), p[1].c_str(), p[2].c_str(), signame(WTERMSIG(stt))); return 1; }
+        if (WIFEXITED(stt) && WEXITSTATUS(stt) == 1) { if (!quiet) printf("replayed: property=%s worker share %s/%s reports violations\n", prop.c_str(), p[1].c_str(), p[2].c_str()); return 1; }
+        if (!quiet) printf("replayed: property=%s worker share %s/%s completes without violation\n", prop.c_str(), p[1].c_str(), p[2].c_str());
+        return 0;
+    }
     Ctx ctx; ctx.prop = prop; ctx.tier = "quick"; ctx.replay = true; ctx.t_start = now_s();
     g_progress_ptr = &ctx.progress; guard_install();
     // executed twice: the observations must be identical (determinism)
@@ -233,17 +244,20 @@ int main(int argc, char **argv) {
         }
         pids.push_back(p);
     }
-    bool harness_error = false;
+    bool harness_error = false; std::vector<int> crashed_sig(workers, 0);
     for (int w = 0; w < workers; w++) {
         int stt = 0; waitpid(pids[w], &stt, 0);
-        if (!WIFEXITED(stt) || WEXITSTATUS(stt) != 0) {
-            fprintf(stderr, "HARNESS-ERROR worker %d ended abnormally (status 0x%x)\n", w, stt); harness_error = true;
-        }
+        if (WIFSIGNALED(stt)) crashed_sig[w] = WTERMSIG(stt);
+        else if (!WIFEXITED(stt) || WEXITSTATUS(stt) != 0) { fprintf(stderr, "HARNESS-ERROR worker %d ended abnormally (status 0x%x)\n", w, stt); harness_error = true; }
     }
     Ctx all; all.prop = id; all.tier = tier; all.nworkers = workers; all.secondary = secondary;
     for (int w = 0; w < workers; w++) {
         Str p = fmt("%s.w%d", base.c_str(), w);
-        if (!read_result(all, p)) { fprintf(stderr, "HARNESS-ERROR no complete result from worker %d\n", w); harness_error = true; }
+        if (crashed_sig[w]) {
+            // the library crashed outside a guarded region: the worker's whole share is the replayable case
+            all.violation("", fmt("WORKER-CRASH`%d`%d`%s`%d", w, workers, tier.c_str(), secondary ? 1 : 0), fmt("worker %d of %d was killed by %s while exploring its share (crash outside a guarded call)", w, workers, signame(crashed_sig[w])));
+            all.cut = true;
+        } else if (!read_result(all, p)) { fprintf(stderr, "HARNESS-ERROR no complete result from worker %d\n", w); harness_error = true; }
         unlink(p.c_str());
     }
     double wall = now_s() - t0;
